@@ -96,7 +96,7 @@ StateCov(ev) ==
 OthersActive(id) == {j \in DOMAIN pool : j # id /\ Name(j) = Name(id) /\ pool[j].st \in ActiveStatuses}
 PrepareViol(ev) ==
   LET t == ev.t  id == t.id  nm == Name(id)  p == Pt(id)  h == HistOf(id)
-      auto == ~ev.manual /\ ~Opt.manual
+      auto == ~ev.manual /\ ~Opt.manual /\ env.downkind # "crash"
       bound == (W.eretry[nm] + 1) * (W.sretry[nm] + 1)
   IN
      Chk("C01_SubmitOnlyIfSatisfied", auto => ReadyByGraph(W, nm, p, done))
@@ -186,6 +186,8 @@ RhCov(ev) == Cov("C04_LimitIsFormula", ev.changed /\ ev.points # {})
 SyncIds(ev) == {ev.pool[j].id : j \in DOMAIN ev.pool}
 SyncRec(ev, i) == LET j == CHOOSE k \in DOMAIN ev.pool : ev.pool[k].id = i IN ev.pool[j]
 DbRows(ev) == Range(ev.dbpool)
+Scalars(ev) == [stop_point |-> ev.stop_point, hold_point |-> ev.hold_point, tasks_to_hold |-> ev.tasks_to_hold,
+                flow_counter |-> ev.flow_counter, stop_task |-> ev.stop_task]
 LoopEndViol(ev) ==
      Chk("C26_CacheIsTruth", Range(ev.cached) = SyncIds(ev) /\ Len(ev.cached) = Cardinality(SyncIds(ev)))
   \cup Chk("C26_NoDuplicateProxy", ev.dup = {} /\ Len(ev.pool) = Cardinality(SyncIds(ev)))
@@ -206,6 +208,57 @@ LoopEndCov(ev) ==
      {"C26_CacheIsTruth", "C26_NoEmptyBucket"}
   \cup Cov("C26_DbPoolMatches", ev.hasdb /\ ev.pool # <<>>)
   \cup Cov("C11_RetainedOnlyIfIncomplete", \E i \in SyncIds(ev) : SyncRec(ev, i).st \in FinalStatuses)
+
+\* boot after a stop: what was restored from the database
+RestoredTask(b) == [st |-> IF b.st = "preparing" THEN "waiting" ELSE b.st,
+                    sub |-> IF b.st = "preparing" THEN b.sub - 1 ELSE b.sub,
+                    flows |-> b.flows, held |-> b.held, sat |-> b.sat]
+BootViol(ev) ==
+  IF ~(ev.restart /\ env.downkind = "stop") THEN {}
+  ELSE Chk("C19_RestoreProjection",
+           \A i \in DOMAIN env.prestop :
+              /\ i \in SyncIds(ev)
+              /\ LET r == SyncRec(ev, i) IN
+                    [st |-> r.st, sub |-> r.sub, flows |-> r.flows, held |-> r.held, sat |-> r.sat]
+                       = RestoredTask(env.prestop[i]))
+  \cup Chk("C19_RestoreScalars", Scalars(ev) = env.prescal)
+  \cup Chk("C06_PersistAcrossRestart",
+           /\ ev.tasks_to_hold = env.prescal.tasks_to_hold /\ ev.hold_point = env.prescal.hold_point
+           /\ \A i \in DOMAIN env.prestop : i \in SyncIds(ev) => SyncRec(ev, i).held = env.prestop[i].held)
+  \cup Chk("C08_FlowCounterSurvives", ev.flow_counter >= env.flowctr)
+BootCov(ev) == Cov("C19_RestoreProjection", ev.restart /\ env.downkind = "stop" /\ DOMAIN env.prestop # {})
+  \cup Cov("C19_RestorePreparing", ev.restart /\ env.downkind = "stop" /\ \E i \in DOMAIN env.prestop : env.prestop[i].st = "preparing")
+  \cup Cov("C06_PersistAcrossRestart", ev.restart /\ env.downkind = "stop"
+            /\ (env.prescal.tasks_to_hold # {} \/ env.prescal.hold_point # NoPoint))
+\* first iteration after the restart poll has been answered
+RestoredViol(ev) ==
+  IF env.downkind # "stop" THEN {}
+  ELSE Chk("C19_OutputsRestored",
+           \A i \in DOMAIN env.prestop : (i \in SyncIds(ev) /\ env.prestop[i].st # "waiting")
+                                             => env.prestop[i].outs \subseteq SyncRec(ev, i).outs)
+  \* recorded separately (known finding): completed outputs of a *waiting* task are not reloaded
+  \cup Chk("C19_OutputsRestored_WaitingTask",
+           \A i \in DOMAIN env.prestop : (i \in SyncIds(ev) /\ env.prestop[i].st = "waiting")
+                                             => env.prestop[i].outs \subseteq SyncRec(ev, i).outs)
+RestoredCov(ev) == Cov("C19_OutputsRestored", env.downkind = "stop" /\ \E i \in DOMAIN env.prestop : env.prestop[i].outs # {})
+  \cup Cov("C19_OutputsRestoredWaiting", env.downkind = "stop" /\ \E i \in DOMAIN env.prestop :
+              env.prestop[i].outs # {} /\ env.prestop[i].st = "waiting")
+\* a job comes into existence
+\* did the database ever record that this submit number had been submitted?
+\* (for a job launched before the last crash: what had been committed when the process died)
+DbKnewSubmitted(job) ==
+  \/ job \in env.jobsSinceBoot
+  \/ \E r \in env.committedAtCrash : r[1] = job[1] /\ r[2] = job[2] /\ r[3] >= job[3]
+                                      /\ r[4] \in {"submitted", "running", "succeeded", "failed", "submit-failed"}
+LaunchViol(ev) ==
+  LET dup == ev.job \in env.jobs
+      rerun == \E j \in env.succeeded : j[1] = ev.job[1] /\ j[2] = ev.job[2]
+  IN Chk("C20_NoDuplicateSubmitNum", dup => ~DbKnewSubmitted(ev.job))
+     \cup Chk("C20_NoRerunInFlow", rerun => ~DbKnewSubmitted(ev.job))
+     \* recorded separately (known finding): the launch was never committed - the process died between the
+     \* execution of the jobs-submit command and the commit of its result
+     \cup Chk("C20_NoDuplicateSubmitNum_UncommittedLaunch", ~(dup /\ ~DbKnewSubmitted(ev.job)))
+                  \cup Chk("C02_NoDuplicateSubmitNum", env.restarted \/ ev.job \notin env.jobs)
 
 \* set_stop(AUTO): the scheduler decides to shut itself down
 CanRunAtSync(ev, i) ==
@@ -242,8 +295,10 @@ BeyondStopAlt == {i \in W.tasks \X AllPoints(W) :
 NoStuck == \A i \in W.tasks \X AllPoints(W) :
              (ValidPoint(W, i[1], i[2]) /\ i[2] >= W.start /\ i[2] <= StopPt /\ Spawnable(i[1], i[2]))
                 => ReadyByGraph(W, i[1], i[2], done)
+\* tasks that were in the in-memory pool when the process died and never came back
+LostForGood == env.lostAtCrash \ env.spawnedSinceBoot
 EndViol(ev) ==
-  LET clean == ~Opt.manual /\ ~env.incomplete /\ ev.reason = "AUTOMATIC" /\ ~W.hassuicide
+  LET clean == ~Opt.manual /\ ~env.incomplete /\ ev.reason = "AUTOMATIC" /\ ~W.hassuicide /\ env.downkind # "crash"
       completable == ~Opt.manual /\ ~env.incomplete /\ Opt.allcomplete /\ ~Opt.stopreq /\ ~W.hassuicide /\ NoStuck IN
      Chk("C01_ExactClosure",
          clean => ((Launched \subseteq Expected /\ (Expected \ Launched) \subseteq BeyondStopAlt)
@@ -254,7 +309,36 @@ EndViol(ev) ==
   \cup Chk("C01_ExactClosure_BeyondStopAlternative", clean => (Expected \ Launched) \cap BeyondStopAlt = {})
   \cup Chk("C01_ShutsDown", completable => ev.reason = "AUTOMATIC")
   \cup Chk("C04_NoRunaheadDeadlock", completable => ev.reason = "AUTOMATIC")
-EndCov(ev) == Cov("C01_ExactClosure", ~Opt.manual /\ ~env.incomplete /\ ev.reason = "AUTOMATIC")
+  \cup Chk("C19_SameOutcome", (Opt.hastwin /\ env.downkind = "stop") =>
+              ((Launched = Opt.twin.launched /\ done = Opt.twin.done /\ ev.reason = Opt.twin.reason)
+                 \/ PrintT(<<"DIAG", tid, "twin: launched-only-here", Launched \ Opt.twin.launched, "only-in-twin",
+                             Opt.twin.launched \ Launched, "outputs-only-here", done \ Opt.twin.done,
+                             "outputs-only-in-twin", Opt.twin.done \ done, ev.reason, Opt.twin.reason>>) = FALSE))
+  \* recorded separately (known findings):
+  \*  - the process died before the task pool was ever committed: the restart finds an empty pool
+  \*  - the process died during start-up, before the database held the workflow parameters: it cannot restart
+  \cup Chk("C20_NoLoss_CrashDuringStartup", ev.reason # "restart_failed")
+  \cup Chk("C20_NoLoss_CrashBeforeFirstPoolCommit",
+           (Opt.hastwin /\ env.downkind = "crash" /\ env.earlyCrash /\ ev.reason # "restart_failed")
+               => Opt.twin.launched \subseteq Launched)
+  \*  - a task spawned in memory whose task_states row was committed early (in TaskPool.remove) while the
+  \*    task_pool table is only rewritten at the end of the iteration: after the crash it is neither in
+  \*    the pool nor respawnable ("task was removed")
+  \cup Chk("C20_NoLoss_SpawnedTaskLostBehindEarlyCommit",
+           (Opt.hastwin /\ env.downkind = "crash" /\ ~env.earlyCrash) =>
+               (LostForGood = {} \/ (Opt.twin.launched \subseteq Launched /\ ev.reason = Opt.twin.reason)))
+  \cup Chk("C20_NoLoss", (Opt.hastwin /\ env.downkind = "crash" /\ ~env.earlyCrash /\ LostForGood = {}) =>
+              \* (outputs are compared only when no job was launched twice: two live copies of one job
+              \*  is the known finding C20_NoDuplicateSubmitNum_UncommittedLaunch and scrambles its messages)
+              ((Opt.twin.launched \subseteq Launched /\ (env.hadDup \/ Opt.twin.done \subseteq done))
+                 \/ PrintT(<<"DIAG", tid, "crash twin: only-in-twin", Opt.twin.launched \ Launched,
+                             "outputs-only-in-twin", Opt.twin.done \ done, ev.reason, Opt.twin.reason>>) = FALSE))
+  \cup Chk("C20_SameEnd", (Opt.hastwin /\ env.downkind = "crash" /\ ~env.earlyCrash
+                             /\ ~env.hadDup /\ LostForGood = {}) => ev.reason = Opt.twin.reason)
+  \cup Chk("C20_NothingExtra", (Opt.hastwin /\ env.downkind = "crash") => Launched \subseteq Opt.twin.launched)
+EndCov(ev) == Cov("C19_SameOutcome", Opt.hastwin /\ env.downkind = "stop")
+              \cup Cov("C20_NoLoss", Opt.hastwin /\ env.downkind = "crash")
+              \cup Cov("C01_ExactClosure", ~Opt.manual /\ ~env.incomplete /\ ev.reason = "AUTOMATIC")
               \cup Cov("C01_ShutsDown", ~Opt.manual /\ ~env.incomplete /\ Opt.allcomplete /\ ~Opt.stopreq /\ ~W.hassuicide /\ NoStuck)
 
 -----------------------------------------------------------------------------
@@ -267,7 +351,8 @@ NextPool(ev) ==
     [] ev.e = "remove" -> Del(pool, ev.t.id)
     [] ev.e \in {"state", "msg"} -> IF ev.t.id \in DOMAIN pool THEN Upd(pool, ev.t.id, ev.t) ELSE pool
     [] ev.e = "prepare" -> IF ev.t.id \in DOMAIN pool THEN Upd(pool, ev.t.id, ev.t) ELSE pool
-    [] ev.e \in {"loop_end", "boot"} -> [i \in SyncIds(ev) |-> SyncRec(ev, i)]   \* re-synchronise
+    [] ev.e \in {"loop_end", "boot", "restored"} -> [i \in SyncIds(ev) |-> SyncRec(ev, i)]   \* re-synchronise
+    [] ev.e \in {"sched_stop", "crash"} -> <<>>          \* the process is gone; the pool is rebuilt from the DB
     [] OTHER -> pool
 
 NewOuts(ev) == IF ev.e \in {"state", "msg", "prepare", "spawn"} THEN {<<Name(ev.t.id), Pt(ev.t.id), o>> : o \in ev.t.outs} ELSE {}
@@ -288,8 +373,23 @@ NextHist(ev) ==
     [] OTHER -> hist
 
 NextEnv(ev) ==
-  CASE ev.e \in {"loop_end", "boot"} ->
+  CASE ev.e = "sched_stop" /\ ev.reason # "AUTOMATIC" ->
+         [env EXCEPT !.prestop = [i \in SyncIds(ev) |-> SyncRec(ev, i)], !.prescal = Scalars(ev),
+                     !.downkind = IF @ = "crash" THEN "crash" ELSE "stop"]
+    [] ev.e = "crash" -> [env EXCEPT !.prestop = pool, !.downkind = "crash",
+                                     !.committedAtCrash = env.committed, !.jobsSinceBoot = {}, !.spawnedSinceBoot = {},
+                                     !.earlyCrash = @ \/ ~env.poolcommitted]
+    [] ev.e = "env_launch" -> [env EXCEPT !.jobs = @ \cup {ev.job}, !.hadDup = @ \/ ev.job \in env.jobs,
+                                          !.jobsSinceBoot = @ \cup {ev.job}]
+    [] ev.e = "spawn" -> [env EXCEPT !.spawnedSinceBoot = @ \cup {ev.t.id}]
+    [] ev.e = "env_job" /\ ev.step = "succeeded" -> [env EXCEPT !.succeeded = @ \cup {ev.job}]
+    [] ev.e \in {"loop_end", "boot"} ->
          [env EXCEPT !.stop = ev.stop_point, !.tohold = ev.tasks_to_hold, !.holdpt = ev.hold_point,
+                     !.flowctr = ev.flow_counter,
+                     !.committed = IF ev.e = "loop_end" /\ ev.hasdb THEN @ \cup ev.dbstates ELSE @,
+                     !.poolcommitted = @ \/ (ev.e = "loop_end" /\ ev.hasdb /\ ev.dbpool # <<>>),
+                     !.lostAtCrash = IF ev.e = "boot" /\ ev.restart /\ env.downkind = "crash"
+                                     THEN @ \cup (DOMAIN env.prestop \ SyncIds(ev)) ELSE @,
                      !.restarted = env.restarted \/ (ev.e = "boot" /\ ev.restart),
                      !.incomplete = env.incomplete \/ \E i \in SyncIds(ev) :
                           SyncRec(ev, i).st \in FinalStatuses /\ ~Complete(W, Name(i), SyncRec(ev, i).outs)]
@@ -307,6 +407,9 @@ Violations(ev) ==
     [] ev.e = "set_stop" -> Chk("C03_ShutdownQuiescent", SetStopViol(ev))
     [] ev.e = "stall" -> Chk("C03_StallIsReal", StallViol(ev))
     [] ev.e = "end" -> EndViol(ev)
+    [] ev.e = "boot" -> BootViol(ev)
+    [] ev.e = "restored" -> RestoredViol(ev)
+    [] ev.e = "env_launch" -> LaunchViol(ev)
     [] OTHER -> {}
 
 Covered(ev) ==
@@ -321,6 +424,9 @@ Covered(ev) ==
     [] ev.e = "set_stop" -> Cov("C03_ShutdownQuiescent", ev.mode = "AUTO")
     [] ev.e = "stall" -> {"C03_StallIsReal"}
     [] ev.e = "end" -> EndCov(ev)
+    [] ev.e = "boot" -> BootCov(ev)
+    [] ev.e = "restored" -> RestoredCov(ev)
+    [] ev.e = "env_launch" -> {"C20_NoDuplicateSubmitNum"} \cup Cov("C20_NoRerunInFlow", env.downkind = "crash")
     [] OTHER -> {}
 
 -----------------------------------------------------------------------------
@@ -329,7 +435,8 @@ Init == /\ tid \in DOMAIN Runs
         /\ pool = <<>>
         /\ done = {}
         /\ hist = <<>>
-        /\ env = [stop |-> NoPoint, tohold |-> {}, holdpt |-> NoPoint, restarted |-> FALSE, incomplete |-> FALSE]
+        /\ env = [stop |-> NoPoint, tohold |-> {}, holdpt |-> NoPoint, restarted |-> FALSE, incomplete |-> FALSE,
+                  prestop |-> <<>>, prescal |-> <<>>, downkind |-> "none", committed |-> {}, poolcommitted |-> FALSE, lostAtCrash |-> {}, earlyCrash |-> FALSE, hadDup |-> FALSE, committedAtCrash |-> {}, jobsSinceBoot |-> {}, spawnedSinceBoot |-> {}, jobs |-> {}, succeeded |-> {}, flowctr |-> 0]
         /\ viol = {}
         /\ cov = {}
 
